@@ -1,19 +1,92 @@
-(* C18 — Simple and default tokenizers agree on space-free symbols (partial).
-   Proved: on a matcher whose stored names are all single words (a table without aliases whose keys
-   contain no white space, plus the five keywords), the scan of the default tokenizer degenerates
-   to the per-word look-up the simple tokenizer performs: it reports one token for every word piece
-   whose lower-cased text is stored, carrying that piece's positions, text and the stored value,
-   and nothing else. The rest of the agreement (disjoint single-word matches pass the overlap filter
-   unchanged; an isolated unknown word becomes the same symbol under both tokenizers; identical
-   error kind, code, token and position) is decided by the exhaustive correspondence of both
-   tokenizers on all token strings up to the bound. *)
-Require Import Model.Base Model.Split Model.Trie Proofs.Trie.
+(* C18 — Simple and default tokenizers agree on space-free symbols.
+   Proved for the model of both tokenizers, every table and every text: if the table has no aliases
+   and each key is one word that is not an operator word, and the text has no two adjacent words
+   that are neither operators nor parentheses, then Licensing.tokenize yields the same token list
+   or the same error with simple=True as with simple=False, strict or not - hence parse() has the
+   same outcome (same tree, or an error of the same kind, code, token and position).
+   Oracle facts used (premises, checked on the interpreter's tables when the oracle table is
+   dumped): the characters of "and or with ( )" are not white space and lower-case to themselves;
+   lower-casing a character that is not a parenthesis never produces a parenthesis. *)
+Require Import Model.Base Model.Expr Model.Split Model.Trie Model.Overlap Model.LicTok Model.Licensing Model.Index.
+Require Import Proofs.Trie Proofs.SimpleAgree.
 
-Theorem C18_single_word_scan_partial : forall V O (tr : trie V), wf_trie tr -> forall text (t : Trie.tok V),
+Definition oracle_keyword_facts (O : oracle) : Prop :=
+  (forall c, In c [97; 110; 100; 111; 114; 119; 105; 116; 104; 40; 41]%N -> is_space O c = false /\ lower_ch O c = [c]) /\
+  (forall c x, is_paren c = false -> In x (lower_ch O c) -> is_paren x = false).
+
+Definition space_free_table (O : oracle) (T : list entry) : Prop :=
+  (forall e, In e T -> ealiases e = []) /\
+  (forall e, In e T -> ekey e <> [] /\ lwords O (ekey e) = [lower O (ekey e)] /\ is_keyword_str (lower O (ekey e)) = false).
+
+Theorem C18_simple_and_default_tokenize_alike : forall O T, oracle_keyword_facts O -> space_free_table O T ->
+  forall text, no_adjacent_plain O text -> forall strict,
+  lic_tokenize O T strict false text = lic_tokenize O T strict true text.
+Proof.
+  intros O T [F1 F2] [T1 T2] text Hiso strict.
+  exact (tokenizers_agree O T F1 F2 T1 T2 text (alt_from_text O T F1 T1 T2 text Hiso) strict).
+Qed.
+Print Assumptions C18_simple_and_default_tokenize_alike.
+
+Theorem C18_simple_and_default_parse_alike : forall O T, oracle_keyword_facts O -> space_free_table O T ->
+  forall text, no_adjacent_plain O text -> forall validate strict,
+  parse O T validate strict false text = parse O T validate strict true text.
+Proof.
+  intros O T [F1 F2] [T1 T2] text Hiso validate strict.
+  exact (parse_agrees O T F1 F2 T1 T2 text (alt_from_text O T F1 T1 T2 text Hiso) validate strict).
+Qed.
+Print Assumptions C18_simple_and_default_parse_alike.
+
+(* the scan over single-word names is a per-word look-up (kept from the first version) *)
+Theorem C18_single_word_scan : forall V O (tr : trie V), wf_trie tr -> forall text (t : Trie.tok V),
   (forall p o, In (p, o) (outs tr) -> length p = 1%nat) ->
   (In t (t_iter O tr text) <->
    exists p sp v, In p (filter (is_word_piece O) (pieces O text)) /\
                   get_out [lower O (ptext p)] (outs tr) = Some (sp, v) /\
                   t = {| tstart := pstart p; tend := pend p; tstring := slice text (pstart p) (pend p); tvalue := Some v |}).
 Proof. intros V O tr W text. exact (@single_word_scan V O tr W text). Qed.
-Print Assumptions C18_single_word_scan_partial.
+Print Assumptions C18_single_word_scan.
+
+(* the premises are satisfiable: the ASCII oracle, the table {mit, GPL-2.0+ (exception)}, the text
+   "MIT or (gpl-2.0+ WITH zz)" *)
+Definition C18_example_table : list entry :=
+  [ {| ekey := [109; 105; 116]%N; ealiases := []; eexc := false |};
+    {| ekey := [71; 80; 76; 45; 50; 46; 48; 43]%N; ealiases := []; eexc := true |} ].
+Definition C18_example_text : str :=
+  [77; 73; 84; 32; 111; 114; 32; 40; 103; 112; 108; 45; 50; 46; 48; 43; 32; 87; 73; 84; 72; 32; 122; 122; 41]%N.
+
+From Coq Require Import Lia ZifyBool NArith.
+Example C18_example_oracle : oracle_keyword_facts ascii_oracle.
+Proof.
+  split.
+  - intros c Hc. simpl in Hc. repeat (destruct Hc as [<-|Hc]; [split; reflexivity|]). destruct Hc.
+  - intros c x Hc Hx. unfold ascii_oracle in Hx. cbn [lower_ch] in Hx.
+    destruct (N.leb 65 c && N.leb c 90) eqn:E; destruct Hx as [<-|[]]; [|exact Hc].
+    unfold is_paren, c_lpar, c_rpar. lia.
+Qed.
+
+Example C18_example_table_ok : space_free_table ascii_oracle C18_example_table.
+Proof.
+  split; intros e He; simpl in He.
+  - destruct He as [<-|[<-|[]]]; reflexivity.
+  - destruct He as [<-|[<-|[]]]; (split; [cbn; discriminate|]); split; vm_compute; reflexivity.
+Qed.
+
+Example C18_example_text_ok : no_adjacent_plain ascii_oracle C18_example_text.
+Proof.
+  unfold no_adjacent_plain. intros pre p q post E.
+  assert (Hw : filter (is_word_piece ascii_oracle) (pieces ascii_oracle C18_example_text) =
+     [ {| pstart := 0; ptext := [77; 73; 84]%N |}; {| pstart := 4; ptext := [111; 114]%N |}; {| pstart := 7; ptext := [40]%N |};
+       {| pstart := 8; ptext := [103; 112; 108; 45; 50; 46; 48; 43]%N |}; {| pstart := 17; ptext := [87; 73; 84; 72]%N |};
+       {| pstart := 22; ptext := [122; 122]%N |}; {| pstart := 24; ptext := [41]%N |} ]%Z) by (vm_compute; reflexivity).
+  rewrite Hw in E. clear Hw. intros [Hp Hq].
+  do 6 (destruct pre as [|? pre];
+          [ cbn [app] in E; injection E as <- <- _; vm_compute in Hp; vm_compute in Hq; first [discriminate Hp | discriminate Hq]
+          | cbn [app] in E; injection E as _ E ]).
+  destruct pre as [|? [|? pre]]; cbn [app] in E; discriminate E.
+Qed.
+
+Example C18_example_outcome :
+  parse ascii_oracle C18_example_table false false true C18_example_text =
+  parse ascii_oracle C18_example_table false false false C18_example_text /\
+  exists e, parse ascii_oracle C18_example_table false false true C18_example_text = Ok (Some e).
+Proof. split; [vm_compute; reflexivity | eexists; vm_compute; reflexivity]. Qed.
